@@ -104,86 +104,82 @@ def run_all(variants: list[dict], jobs: int = 16) -> list[dict]:
 SEEDED = Path(__file__).resolve().parent.parent / "seeded"
 
 
-def run_seeded(prop: str) -> dict:
-    """Apply each seeded change written for `prop` to a scratch copy of the package (outside /repo and /verif, removed
-    afterwards) and run the property's rules on it.  A patch that no longer applies to the current tree is skipped."""
+def _apply_and_check(job):
+    """(kind, prop, patch dir) -> (dir name, status, new findings): one scratch copy of the package per patch (outside /repo
+    and /verif, removed afterwards), the property's rules run on it."""
     import shutil
     import subprocess
     import tempfile
 
+    from .model import REPO
+
+    kind, prop, d = job
+    d = Path(d)
+    base = _baseline(prop)
+    tmp = Path(tempfile.mkdtemp(prefix=f"fsa_{kind}_", dir="/tmp"))
+    try:
+        shutil.copytree(REPO / "fakesnow", tmp / "fakesnow", ignore=shutil.ignore_patterns("__pycache__"))
+        r = subprocess.run(["patch", "-p1", "-s", "-f", "-i", str(d / "patch.diff")], cwd=tmp, capture_output=True, text=True)
+        if r.returncode != 0:
+            return d.name, "skipped", []
+        try:
+            got = _findings(prop, Program(root=tmp))
+            new = [k for k in got if k not in base]
+        except AnalysisError as e:
+            new = [] if kind == "seed" else [f"ANALYSIS-ERROR {e}"]
+        return d.name, "applied", new
+    finally:
+        shutil.rmtree(tmp, ignore_errors=True)
+
+
+def _pool_map(jobs_list, jobs):
+    if not jobs_list:
+        return []
+    with mp.get_context("fork").Pool(min(jobs, len(jobs_list))) as pool:
+        return pool.map(_apply_and_check, jobs_list, chunksize=1)
+
+
+def run_seeded(prop: str, jobs: int = 16) -> dict:
+    """Apply each seeded change written for `prop` to a scratch copy of the package and run the property's rules on it.
+    A patch that no longer applies to the current tree is skipped."""
     out = {"applied": 0, "reported": 0, "skipped": 0, "missed": []}
     if not SEEDED.is_dir():
         return out
-    from .model import REPO
-
-    base = _baseline(prop)
+    todo = []
     for d in sorted(SEEDED.iterdir()):
         meta_p, patch = d / "meta.json", d / "patch.diff"
-        if not (meta_p.exists() and patch.exists()):
+        if meta_p.exists() and patch.exists() and json.loads(meta_p.read_text()).get("property") == prop:
+            todo.append(("seed", prop, str(d)))
+    for name, status, new in _pool_map(todo, jobs):
+        if status == "skipped":
+            out["skipped"] += 1
             continue
-        meta = json.loads(meta_p.read_text())
-        if meta.get("property") != prop:
-            continue
-        tmp = Path(tempfile.mkdtemp(prefix="fsa_seed_", dir="/tmp"))
-        try:
-            shutil.copytree(REPO / "fakesnow", tmp / "fakesnow", ignore=shutil.ignore_patterns("__pycache__"))
-            r = subprocess.run(["patch", "-p1", "-s", "-f", "-i", str(patch)], cwd=tmp, capture_output=True, text=True)
-            if r.returncode != 0:
-                out["skipped"] += 1
-                continue
-            out["applied"] += 1
-            try:
-                got = _findings(prop, Program(root=tmp))
-                new = [k for k in got if k not in base]
-            except AnalysisError:
-                new = []
-            if new:
-                out["reported"] += 1
-            else:
-                out["missed"].append(d.name)
-        finally:
-            shutil.rmtree(tmp, ignore_errors=True)
+        out["applied"] += 1
+        if new:
+            out["reported"] += 1
+        else:
+            out["missed"].append(name)
     return out
 
 
 NEUTRAL = Path(__file__).resolve().parent.parent / "neutral"
 
 
-def run_neutral(prop: str) -> dict:
+def run_neutral(prop: str, jobs: int = 16) -> dict:
     """Behaviour-preserving refactorings written by independent sub-agents: the property's rules must stay silent."""
-    import shutil
-    import subprocess
-    import tempfile
-
     out = {"applied": 0, "silent": 0, "skipped": 0, "false_alarms": []}
     if not NEUTRAL.is_dir():
         return out
-    from .model import REPO
-
-    base = _baseline(prop)
-    for d in sorted(NEUTRAL.iterdir()):
-        patch = d / "patch.diff"
-        if not patch.exists():
+    todo = [("neutral", prop, str(d)) for d in sorted(NEUTRAL.iterdir()) if (d / "patch.diff").exists()]
+    for name, status, new in _pool_map(todo, jobs):
+        if status == "skipped":
+            out["skipped"] += 1
             continue
-        tmp = Path(tempfile.mkdtemp(prefix="fsa_neutral_", dir="/tmp"))
-        try:
-            shutil.copytree(REPO / "fakesnow", tmp / "fakesnow", ignore=shutil.ignore_patterns("__pycache__"))
-            r = subprocess.run(["patch", "-p1", "-s", "-f", "-i", str(patch)], cwd=tmp, capture_output=True, text=True)
-            if r.returncode != 0:
-                out["skipped"] += 1
-                continue
-            out["applied"] += 1
-            try:
-                got = _findings(prop, Program(root=tmp))
-                new = [k for k in got if k not in base]
-            except AnalysisError as e:
-                new = [f"ANALYSIS-ERROR {e}"]
-            if new:
-                out["false_alarms"].append({"patch": d.name, "findings": new[:3]})
-            else:
-                out["silent"] += 1
-        finally:
-            shutil.rmtree(tmp, ignore_errors=True)
+        out["applied"] += 1
+        if new:
+            out["false_alarms"].append({"patch": name, "findings": new[:3]})
+        else:
+            out["silent"] += 1
     return out
 
 
@@ -202,9 +198,9 @@ def run_for(prop: str, jobs: int = 16) -> int:
         "failed": [{"name": r["name"], "detail": r["detail"]} for r in fails],
         "samples": [{"name": r["name"], "kind": r["kind"], "result": r["status"], "detail": r["detail"]} for r in results[:12]],
     }
-    seeded = run_seeded(prop)
+    seeded = run_seeded(prop, jobs)
     summary["seeded_changes"] = seeded
-    neutral = run_neutral(prop)
+    neutral = run_neutral(prop, jobs)
     summary["neutral_refactorings"] = neutral
     p = EVID / f"{prop}.json"
     if p.exists():
